@@ -50,6 +50,13 @@ func syntheticImplements(t types.Type, it *types.Interface) bool {
 
 func (e *Engine) newError(msg Value, cause Value) Value {
 	initSynth()
+	if e.trace {
+		ev := ""
+		if e.debugModel != nil {
+			ev = fmt.Sprintf(" EVAL=%d", Eval(curGuard, e.debugModel, map[*Term]uint64{}))
+		}
+		e.logf("NEWERROR %v at %s%s guard=%s", msg, e.pos(0), ev, curGuard.render(2))
+	}
 	if cause == nil {
 		cause = IfaceV{}
 	}
@@ -150,7 +157,10 @@ func (e *Engine) flatten(v Value, shape *strings.Builder, out *[]*Term, depth in
 		shape.WriteString("s;")
 		var t *Term
 		for i := len(x.alts) - 1; i >= 0; i-- {
-			id := BV(32, e.strID(x.alts[i].s))
+			id := BV(64, e.strID(x.alts[i].s))
+			if x.alts[i].atom != nil {
+				id = x.alts[i].atom
+			}
 			if t == nil {
 				t = id
 			} else {
@@ -189,20 +199,25 @@ func (e *Engine) flatten(v Value, shape *strings.Builder, out *[]*Term, depth in
 		}
 		shape.WriteString(")")
 	case RefV:
+		// canonical in the pointee's deep value: nil flag + the merged pointee (not one payload per alternative, which
+		// would make the encoding depend on how the pointer value happens to be represented)
 		shape.WriteString("p(")
-		*out = append(*out, x.isNil())
-		for _, al := range x.alts {
-			c, ok := al.o.(*Cell)
-			if !ok {
-				panic(unsupported("hash of map/chan"))
+		isNil := x.isNil()
+		*out = append(*out, isNil)
+		if len(x.alts) > 0 {
+			for _, al := range x.alts {
+				if _, ok := al.o.(*Cell); !ok {
+					panic(unsupported("hash of map/chan"))
+				}
 			}
-			*out = append(*out, al.c)
 			var sub []*Term
-			e.flatten(loadCell(c), shape, &sub, depth+1)
+			e.flatten(e.loadOr(x), shape, &sub, depth+1)
+			nn := Not(isNil)
 			for _, t := range sub {
-				*out = append(*out, maskTerm(al.c, t))
+				*out = append(*out, maskTerm(nn, t))
 			}
-			shape.WriteString("|")
+		} else {
+			shape.WriteString("nil")
 		}
 		shape.WriteString(")")
 	case SliceV:
@@ -629,6 +644,9 @@ func (e *Engine) tryStub(name string, fn *ssa.Function, args []Value, g *Term, p
 			return r, true
 		}
 	}
+	if r, ok := e.genericDataStub(name, fn, args, g, pos); ok {
+		return r, true
+	}
 	if rd, ok := e.redirects[name]; ok {
 		e.StubsUsed[name+" -> "+rd.String()]++
 		return e.call(rd, args, g, pos), true
@@ -751,4 +769,131 @@ func (e *Engine) intrinsicValueCall(al FuncAlt, args []Value, g *Term, pos token
 		return e.builtin(al.intr[len("builtin:"):], args, nil, g, pos, nil)
 	}
 	panic(unsupported("intrinsic func value " + al.intr))
+}
+
+// atomString returns an opaque string identified injectively by (tag, values).
+func (e *Engine) atomString(tag string, vals []Value) StringV {
+	h := e.hashApply(tag, vals)
+	e.assume(Cmp(OpULe, BV(64, 1<<32), h)) // never equal to an interned concrete-string id
+	return AtomStr(h)
+}
+
+var cloneFollow = map[string]bool{
+	"ParSignedData": true, "ParSignedDataSet": true, "UnsignedDataSet": true, "SignedDataSet": true, "DutyDefinitionSet": true,
+}
+
+// genericDataStub models serialisation-based methods of data types by their contract:
+//   X.HashTreeRoot()  -> ideal injective hash of the receiver's deep value (go-eth2-client / charon data types)
+//   X.String()        -> opaque string, injective in the receiver's deep value (go-eth2-client types)
+//   X.Clone()         -> structural deep copy (charon/core data types whose Clone round-trips through JSON/SSZ)
+func (e *Engine) genericDataStub(name string, fn *ssa.Function, args []Value, g *Term, pos token.Pos) (Value, bool) {
+	sig := fn.Signature
+	if sig.Recv() == nil || len(args) == 0 {
+		return nil, false
+	}
+	isEth2 := strings.Contains(name, "github.com/attestantio/go-eth2-client/") || strings.Contains(name, "github.com/obolnetwork/charon/core.") || strings.Contains(name, "github.com/obolnetwork/charon/eth2util/")
+	recvT := sig.Recv().Type()
+	mname := fn.Name()
+	switch mname {
+	case "HashTreeRoot":
+		if !isEth2 || sig.Params().Len() != 0 || sig.Results().Len() != 2 {
+			return nil, false
+		}
+		e.StubsUsed["HashTreeRoot(ideal injective hash): "+recvT.String()]++
+		e.panicVC("HashTreeRoot on nil receiver", pos, And(g, nilness(args[0])))
+		h := e.hashApply("HTR:"+strings.TrimPrefix(recvT.String(), "*"), []Value{args[0]})
+		return TupleV{[]Value{hashToArray(h, 32), IfaceV{}}}, true
+	case "String":
+		if !strings.Contains(name, "github.com/attestantio/go-eth2-client/") || sig.Results().Len() != 1 || !isString(sig.Results().At(0).Type()) {
+			return nil, false
+		}
+		if _, isStruct := derefType(recvT).Underlying().(*types.Struct); !isStruct {
+			return nil, false
+		}
+		e.StubsUsed["String(opaque injective string): "+recvT.String()]++
+		e.panicVC("String on nil receiver", pos, And(g, nilness(args[0])))
+		return e.atomString("STR:"+strings.TrimPrefix(recvT.String(), "*"), []Value{args[0]}), true
+	case "Clone":
+		if !strings.Contains(name, "github.com/obolnetwork/charon/core.") || sig.Results().Len() != 2 {
+			return nil, false
+		}
+		named, ok := derefType(recvT).(*types.Named)
+		if !ok || cloneFollow[named.Obj().Name()] {
+			return nil, false
+		}
+		e.StubsUsed["Clone(structural deep copy): "+recvT.String()]++
+		cp := e.deepCopy(args[0], 0)
+		var res Value = cp
+		if _, isIface := sig.Results().At(0).Type().Underlying().(*types.Interface); isIface {
+			res = IfaceV{[]IfaceAlt{{TS.True, recvT, cp}}}
+		}
+		return TupleV{[]Value{res, IfaceV{}}}, true
+	}
+	return nil, false
+}
+
+func derefType(t types.Type) types.Type {
+	if p, ok := t.(*types.Pointer); ok {
+		return p.Elem()
+	}
+	return t
+}
+
+func nilness(v Value) *Term {
+	if r, ok := v.(RefV); ok {
+		return r.isNil()
+	}
+	return TS.False
+}
+
+// deepCopy returns a structurally equal value sharing no memory with v.
+func (e *Engine) deepCopy(v Value, depth int) Value {
+	if depth > 16 {
+		panic(unsupported("deep copy too deep"))
+	}
+	switch x := v.(type) {
+	case StructV:
+		f := make([]Value, len(x.f))
+		for i := range f {
+			f[i] = e.deepCopy(x.f[i], depth+1)
+		}
+		return StructV{f}
+	case ArrayV:
+		el := make([]Value, len(x.e))
+		for i := range el {
+			el[i] = e.deepCopy(x.e[i], depth+1)
+		}
+		return ArrayV{el}
+	case RefV:
+		out := RefV{}
+		for _, a := range x.alts {
+			switch o := a.o.(type) {
+			case *Cell:
+				nc := newCell(o.typ, e.deepCopy(loadCell(o), depth+1))
+				out.alts = append(out.alts, RefAlt{a.c, nc})
+			case *MapObj:
+				nm := &MapObj{id: nextID(), typ: o.typ}
+				for _, en := range o.entries {
+					nm.entries = append(nm.entries, &MapEntry{key: en.key, present: en.present, val: e.deepCopy(en.val, depth+1)})
+				}
+				out.alts = append(out.alts, RefAlt{a.c, nm})
+			default:
+				out.alts = append(out.alts, a)
+			}
+		}
+		return out
+	case SliceV:
+		if len(x.arr.alts) == 0 {
+			return x
+		}
+		arr := e.deepCopy(x.arr, depth+1).(RefV)
+		return SliceV{arr, x.off, x.len, x.cap}
+	case IfaceV:
+		out := IfaceV{}
+		for _, a := range x.alts {
+			out.alts = append(out.alts, IfaceAlt{a.c, a.typ, e.deepCopy(a.v, depth+1)})
+		}
+		return out
+	}
+	return v
 }
